@@ -177,7 +177,8 @@ class Check:
     def finish(self, floor_events=1):
         self.cov['distinct_nontrivial'] = max(self.cov.get('distinct_nontrivial', 0), len(self._distinct))
         wall = time.time() - self.t0
-        os.makedirs(os.path.join(VERIF, 'evidence'), exist_ok=True)
+        evdir = os.path.join(VERIF, 'evidence') if REPO == '/repo' else os.path.join(WORK, 'alt-evidence')
+        os.makedirs(evdir, exist_ok=True)
         os.makedirs(os.path.join(VERIF, 'replays'), exist_ok=True)
         lines = []
         for k, (text, n) in sorted(self.known.items()):
@@ -198,9 +199,9 @@ class Check:
               'coverage': self.cov, 'assumptions': self.assumptions, 'wall_s': round(wall, 2),
               'violations': len(seen), 'verdict': 'violated' if seen else ('inconclusive' if self.inconclusive else 'held-on-observed'),
               'inconclusive_reasons': self.inconclusive[:10], 'tree_hash': tree_hash()[:16]}
-        tmp = os.path.join(VERIF, 'evidence', '.%s.json.%d' % (self.prop, os.getpid()))
+        tmp = os.path.join(evdir, '.%s.json.%d' % (self.prop, os.getpid()))
         json.dump(ev, open(tmp, 'w'), indent=1, default=str)
-        os.replace(tmp, os.path.join(VERIF, 'evidence', '%s.json' % self.prop))
+        os.replace(tmp, os.path.join(evdir, '%s.json' % self.prop))
         for l in lines: print(l)
         print('%s %s tier=%s seed=%d evaluations=%d distinct=%d wall=%.1fs' % (
             self.prop, ev['verdict'], self.tier, seed(), self.cov['evaluations'], self.cov['distinct_nontrivial'], wall))
